@@ -223,6 +223,38 @@ def known_field(c, r):
         ok = k["quote"] != k["escape"] and (k["escape_quote"] or k["quote"] not in f)
     return None if ok else "D32-field-escaping-configuration-incomplete"
 
+# ---- SigmaRegularExpression.escape ----
+RX_ALPHA = ["a", "\\", "/", "*", ".", '"', " ", "b", "«"]
+RX_CONFIGS = [
+    {"escaped": ["/"], "ec": "\\", "eec": True}, {"escaped": ["/"], "ec": "\\", "eec": False},
+    {"escaped": ["/", "«", '"'], "ec": "\\", "eec": True}, {"escaped": [], "ec": "\\", "eec": True},
+    {"escaped": [], "ec": "\\", "eec": False}, {"escaped": ['"'], "ec": "^", "eec": True},
+    {"escaped": ["ab", "a"], "ec": "\\", "eec": True}, {"escaped": ["a", "ab"], "ec": "\\", "eec": False},
+    {"escaped": ["/*", "/"], "ec": "\\\\", "eec": True},
+]
+def gen_rxescape(tier, rng):
+    import re as _re
+    ss = ["".join(t) for k in range(0, 5 if tier == "quick" else 6) for t in itertools.product(RX_ALPHA, repeat=k)]
+    ok = []
+    for s in ss:
+        try:
+            _re.compile(s); ok.append(s)
+        except _re.error:
+            pass
+    if tier == "quick":
+        ok = [s for s in ok if len(s) <= 3] + rng.sample([s for s in ok if len(s) > 3], 600)
+    out = []
+    for s in ok:
+        for k in rng.sample(RX_CONFIGS, 3 if tier == "quick" else len(RX_CONFIGS)):
+            flags = "".join(sorted(rng.sample("ims", rng.choice([0, 0, 1, 2, 3]))))
+            out.append(dict(k, s=s, flags=flags, fp=rng.random() < 0.4))
+    return out
+
+def rxescape_to_coq(c, r):
+    if "exc" in r: return None
+    return "(%s, %s, %s, %s, %s, %s, %s)" % (clist(cstr(e) for e in c["escaped"]), cstr(c["ec"]), cbool(c["eec"]), cbool(c["fp"]),
+                                              cstr(c["flags"]), cstr(c["s"]), cstr(r["q"]))
+
 # ---- slices ----
 def gen_slice(tier, rng):
     out = []
@@ -265,6 +297,7 @@ PROPERTY = Property(
         Suite("quoted", gen_quoted, "run_quoted", REQ, "judge_quoted", quoted_to_coq, known=known_quoted, mutate=mutate_str),
         Suite("field", gen_field, "run_field", REQ + ["Model.FieldName"], "judge_field", field_to_coq, known=known_field),
         Suite("leaf", _c01.gen_strop, "run_strop", _c01.REQ + ["Model.StrOp", "Spec.Items"], "judge_strop", _c01.strop_to_coq),
+        Suite("rxescape", gen_rxescape, "run_rxescape", REQ + ["Model.RxEscape"], "judge_rxescape", rxescape_to_coq),
         Suite("slice", gen_slice, "run_slice", REQ + ["Model.Slice"], "judge_slice", slice_to_coq, known=known_slice, mutate=mutate_str),
     ],
     rule="strings over {\\ * ? \" ' : & % . ( [ a B space}: exhaustive up to length 3 (quick) / 4 (thorough), longer over a reduced alphabet, "
